@@ -64,6 +64,7 @@ func (x *Exec) doCallVals(st *State, fr *Frame, c *ssa.CallCommon, fv Val, argv 
 			for j, a := range argv {
 				vars[fmt.Sprintf("$%d", j)] = a // $0, $1, ...: the arguments of the call
 			}
+			vars["$go"] = Val{S: "false", Sort: "Bool"} // an ordinary call, not a `go` statement
 			if c.IsInvoke() {
 				vars["$recv"] = fv
 			}
@@ -339,7 +340,7 @@ func (x *Exec) havocMods(st *State, fc *FuncContract, env *specEnv, old map[stri
 	}
 	st.growAlloc()
 	if fc.ModAll {
-		st.havocAll()
+		st.havocAllExcept(fc.ModExcept)
 		return
 	}
 	for _, m := range fc.Modifies {
@@ -573,6 +574,7 @@ func (x *Exec) doGo(st *State, fr *Frame, in *ssa.Go) {
 			for j, a := range argv {
 				vars[fmt.Sprintf("$%d", j)] = a
 			}
+			vars["$go"] = Val{S: "true", Sort: "Bool"} // the callee is started on a goroutine of its own
 			if c.IsInvoke() {
 				vars["$recv"] = x.val(st, fr, c.Value)
 			} else if fv := x.val(st, fr, c.Value); fv.Clo != nil && callee != nil {
